@@ -53,12 +53,19 @@ MANIFEST = dict(
          'every finite graph with each body entered at most once, calls <= 1+|E| '
          '(memo_eval_terminates_linear; without default it diverges on a self loop - kernel-checked); the '
          'on-stack guard alone bounds depth by |V| but not work (2^n witness); _limit_value_infers enters a '
-         'context at most 300 times per Script (node_cap). Tie: translator (limits, cap, statement '
-         'sequences of push/pop/decorator/memoize) + decision-by-decision correspondence on the real '
-         'objects + end-to-end runs of generated cyclic programs and scaling families under a watchdog.',
+         'context at most 300 times per Script (node_cap); the listing ClassMixin.py__mro__ over ANY '
+         'inheritance relation on n classes contains no class twice, so its length is <= n (mro_linear), '
+         'one body does <= |bases| n loop iterations and all bodies together <= |E| n (mro_work_poly), '
+         'acyclic hierarchies never exhaust the stack (mro_terminates); recording the direct base instead '
+         'of the yielded class lists 2^(k+2)-3 entries on k nested diamonds (kernel-checked witness). '
+         'Tie: translator (limits, cap, statement sequences of push/pop/decorator/memoize/py__mro__; the '
+         'appended, tested and yielded element of py__mro__ are the same variable) + decision-by-decision '
+         'correspondence on the real objects + end-to-end runs of generated cyclic programs and scaling '
+         'families (definition chains/diamonds/trees in-process, inheritance families in child processes '
+         'counting MRO entries, _infer_node entries and CPU time) under a watchdog.',
     note='Modelled not verified: that every inference path of jedi is built only from these combinators '
-         '(sampled by stream e2e); the lazily interleaved generator cache (oracle only); builtins/typing '
-         'exemptions are flags of the pushed execution.',
+         '(sampled by streams e2e and scaling); the lazily interleaved generator cache (oracle only), hence '
+         'cyclic inheritance in py__mro__; builtins/typing exemptions are flags of the pushed execution.',
     technique='Lean 4 proof over hand-written model + translator-generated constants + differential correspondence',
     design='5.C15')
 LEAN_TARGETS = ['JediModel.Props.C15', 'JediModel.Drivers.C15']
@@ -665,7 +672,7 @@ def stream_mro(ctx, reqs):
 
 # ----------------------------------------------------------------- stream: scaling (inheritance)
 
-INHERIT = dict(ratio=8, item_slack=64, cpu_slack=3.0, cpu_abs=30.0)
+INHERIT = dict(ratio=8, item_slack=64, cpu_slack=10.0, cpu_abs=30.0, cpu_attempts=3)
 CHILD = os.path.join(os.path.dirname(os.path.abspath(IC.__file__)), 'c15_inherit_child.py')
 
 
@@ -772,7 +779,8 @@ def judge_inherit(ctx, fam, rows, killed, etxt, waited, cap):
             ctx.fail('scaling', 'CPU time grows faster than any cubic between n and 2n' if half else
                      'query on an inheritance family needs more than %.0f s CPU' % INHERIT['cpu_abs'], case,
                      expected={'cpu_seconds<=': r['cpu_cap']},
-                     observed={'cpu(n)': half['cpu'] if half else None, 'cpu(2n)>': r['cpu'],
+                     observed={'cpu(n)': half['cpu'] if half else None,
+                               'cpu(2n) cut off by the CPU timer on every attempt after': r.get('cpu_attempts'),
                                'classes': r['classes'], 'mro_items_so_far': r['items']}, how=how)
         elif ok and half and half['outcome'] == 'ok' and n >= 8 and r['entries'] is not None \
                 and half['entries'] is not None and r['entries'] > R * half['entries'] + I:
@@ -791,7 +799,7 @@ def judge_inherit(ctx, fam, rows, killed, etxt, waited, cap):
 
 def collect_inherit(ctx, started, cap):
     procs, t0 = started
-    deadline = t0 + ctx.size(150, 1200)
+    deadline = t0 + ctx.size(240, 1800)
     pending = []
     for fam, p, err in procs:
         rows, killed, etxt = read_child(p, err, deadline)
@@ -1105,7 +1113,7 @@ def run(ctx):
         if os.environ.get('VERIF_C15_TIMING'):
             sys.stderr.write('[c15 timing] %-10s %.1f s\n' % (name, time.time() - t0[0]))
         t0[0] = time.time()
-    lap('start')
+    lap('pre-run %.1f s; start' % (time.time() - ctx.t0))
     inherit = start_inherit(ctx)
     cases += stream_detector(ctx, reqs)
     lap('detector')
